@@ -13,7 +13,7 @@
 (* printed as JSON when the trace is exhausted.  The driver maps monitor   *)
 (* names to properties (DESIGN.md section 7).                              *)
 (***************************************************************************)
-EXTENDS Monitors, Diff, Json, IOUtils, TLC
+EXTENDS Validate, Diff, Json, IOUtils, TLC
 
 Rec == ndJsonDeserialize(IOEnv.TRACE)
 
@@ -336,10 +336,6 @@ ListMonitors(r) ==
                      # SelectSeq(Listing(fs, b, r.subtree, SeqRange(r.match)), LAMBDA e : e.p # Root)),
           {<<"ListingDiffers", <<b, [i \in 1..Len(r.entries) |-> r.entries[i].p],
                                   LET x == Listing(fs, b, r.subtree, SeqRange(r.match)) IN [i \in 1..Len(x) |-> x[i].p]>> >>})
-
-\* damage matters when some version that existed no longer restores to what it did
-DamageMatters(h, f) ==
-    \E b \in Bands(h) : HeadOK(h, b) /\ (~HeadOK(f, b) \/ RestoreOf(f, b) # RestoreOf(h, b))
 
 ValidateMonitors(r) ==
     LET loud == r.mon_errors > 0 \/ r.res # "ok" IN
